@@ -129,6 +129,9 @@ pub fn run(ctx: &mut Ctx) {
             let bytes = m.marshal();
             let e = m.endian;
             let mut rng = ctx.rng(k);
+            if k % 29 == 0 {
+                ctx.sample(json!({"kind": "unknown-header-field", "code": code, "payload_signature": p.sig().to_sig_string(), "position_in_field_array": pos, "endian": e.name(), "message": vref::hex(&bytes)}));
+            }
             let note = format!("unknown-field code={code} payload={}", p.sig());
             ctx.guarded(k, &note, || json!({"code": code}), |ctx| {
                 check_parse(ctx, k, "field-code", code, &bytes, e, true);
@@ -147,6 +150,9 @@ pub fn run(ctx: &mut Ctx) {
             m.flags = (1u8 << bit) | known;
             let bytes = m.marshal();
             let mut rng = ctx.rng(k);
+            if k % 5 == 0 {
+                ctx.sample(json!({"kind": "unknown-flag-bit", "flags": m.flags, "message": vref::hex(&bytes)}));
+            }
             let note = format!("unknown-flag bit={bit} known={known}");
             ctx.guarded(k, &note, || json!({"bit": bit}), |ctx| {
                 check_parse(ctx, k, "flag-bit", bit, &bytes, Endian::Le, true);
@@ -167,6 +173,9 @@ pub fn run(ctx: &mut Ctx) {
         m.mtype = t as u8;
         let bytes = m.marshal();
         let mut rng = ctx.rng(k);
+        if k % 11 == 0 {
+            ctx.sample(json!({"kind": "unknown-message-type", "type": t, "message": vref::hex(&bytes)}));
+        }
         let note = format!("unknown-type type={t}");
         ctx.guarded(k, &note, || json!({"type": t}), |ctx| {
             // whether from_bytes yields an item is not judged (no representation); the stream must go on
@@ -175,7 +184,5 @@ pub fn run(ctx: &mut Ctx) {
             check_stream(ctx, k, "msg-type", t, bytes.clone(), &mut rng);
         });
     }
-    if ctx.args.shard == 0 {
-        ctx.sample(json!({"unknown_field_example": vref::hex(&{ let mut m = base(5); m.fields.push((42, Val::U(7))); m.marshal() })}));
-    }
+
 }
